@@ -1,8 +1,15 @@
 """C02 driver of the real code: parse_string + build_advanced_tree, then the canonical structural tree
 (structural nodes only, bold/italic as leaf attributes).  stdin: JSON lines {"id","raw","lang"}; stdout JSON lines
-{"id","tree"} or {"id","exc"}."""
+{"id","tree"} or {"id","exc"}.
+
+Default mode: the documents of the input are parsed one after the other IN THIS PROCESS (documents of different site languages
+interleaved), as a render server does; what the property says about a document does not depend on what was parsed before.
+Mode `iso` (argv[1]): every input line is handled by a forked child of a parent that has never parsed anything, i.e. in the state of
+a fresh process; a case may carry "pre": [{"raw","lang"}, ...], documents the child parses (in order) before the document itself -
+this is how a history-dependent mismatch is minimised and replayed."""
 import json
 import logging
+import os
 import re
 import sys
 import traceback
@@ -39,6 +46,8 @@ def label(node):
         return ["dd"]
     if isinstance(node, nodes.Table):
         return ["table"]
+    if isinstance(node, nodes.Caption):
+        return ["caption"]
     if isinstance(node, nodes.Row):
         return ["row"]
     if isinstance(node, nodes.Cell):
@@ -52,8 +61,15 @@ def label(node):
     if isinstance(node, nodes.URL):
         return ["url", node.caption]
     if isinstance(node, nodes.Link):
-        return ["link", node.target]
+        if node.__class__ is nodes.ArticleLink:
+            return ["link", node.target]
+        # every other kind of link: its kind and the fully qualified target (namespace name of the site language) are part of the label
+        return ["link", node.target, LINK_KINDS.get(node.__class__, node.__class__.__name__), getattr(node, "full_target", None) or ""]
     return None
+
+
+LINK_KINDS = {nodes.ImageLink: "image", nodes.CategoryLink: "category", nodes.NamespaceLink: "ns", nodes.LangLink: "lang",
+              nodes.InterwikiLink: "interwiki"}
 
 
 _pids = {}
@@ -99,20 +115,38 @@ def canon(node, bold, italic, heading_of=None):
     return [["N", lab, out]]
 
 
+def one(c):
+    try:
+        for h in c.get("pre") or []:
+            try:
+                advtree.build_advanced_tree(uparser.parse_string(title="t", raw=h["raw"], wikidb=None, lang=h["lang"]))
+            except Exception:  # noqa: BLE001  (an earlier document that fails is reported when it is the document under test)
+                pass
+        art = uparser.parse_string(title="t", raw=c["raw"], wikidb=None, lang=c["lang"])
+        advtree.build_advanced_tree(art)
+        tree = []
+        _pids.clear()
+        for ch in art.children:
+            tree.extend(canon(ch, False, False))
+        return {"id": c["id"], "tree": tree}
+    except Exception as e:
+        return {"id": c["id"], "exc": "%s: %s" % (type(e).__name__, str(e)[:200]), "tb": traceback.format_exc()[-1500:]}
+
+
 def main():
+    iso = len(sys.argv) > 1 and sys.argv[1] == "iso"
     for line in sys.stdin:
         c = json.loads(line)
-        try:
-            art = uparser.parse_string(title="t", raw=c["raw"], wikidb=None, lang=c["lang"])
-            advtree.build_advanced_tree(art)
-            tree = []
-            _pids.clear()
-            for ch in art.children:
-                tree.extend(canon(ch, False, False))
-            r = {"id": c["id"], "tree": tree}
-        except Exception as e:
-            r = {"id": c["id"], "exc": "%s: %s" % (type(e).__name__, str(e)[:200]), "tb": traceback.format_exc()[-1500:]}
-        sys.stdout.write(json.dumps(r) + "\n")
+        if iso:
+            sys.stdout.flush()
+            pid = os.fork()
+            if pid == 0:
+                sys.stdout.write(json.dumps(one(c)) + "\n")
+                sys.stdout.flush()
+                os._exit(0)
+            os.waitpid(pid, 0)
+            continue
+        sys.stdout.write(json.dumps(one(c)) + "\n")
         sys.stdout.flush()
 
 
